@@ -18,7 +18,28 @@ import types
 import core
 
 # ------------------------------------------------------------------------------------------------ wire format
-_OBJ_CLASSES = {}      # class name -> (class, [field names])  for values that travel as objects
+class _ObjClasses(dict):
+    """class name -> (class, [field names]) for values that travel as objects; filled on first use (needs the repo)"""
+    _loaded = False
+
+    def _load(self):
+        if not self._loaded:
+            self._loaded = True
+            from packaging import version as V
+            self["_Version"] = (V._Version, list(V._Version._fields))
+            self["Version"] = (V.Version, ["_version", "_key"])
+            self["_TrimmedRelease"] = (V._TrimmedRelease, ["_version", "_key"])
+
+    def __contains__(self, k):
+        self._load()
+        return dict.__contains__(self, k)
+
+    def __getitem__(self, k):
+        self._load()
+        return dict.__getitem__(self, k)
+
+
+_OBJ_CLASSES = _ObjClasses()
 
 
 def enc_val(v) -> str:
@@ -103,6 +124,8 @@ class _P:
                 fields[key] = self.val()
             self.i += 1
             cls, _ = _OBJ_CLASSES[name]
+            if issubclass(cls, tuple):
+                return cls(**fields)
             o = object.__new__(cls)
             for k, v in fields.items():
                 object.__setattr__(o, k, v)
@@ -177,12 +200,46 @@ def _g_pad_version(rng):
     return [_toks(rng), _toks(rng)]
 
 
+def _version_obj(rng, trimmed=0.0):
+    from packaging import version as V
+    from gen import versions as GV
+    st = GV.struct(rng)
+    if rng.random() < 0.35:                       # zeros at the end of / all over the release (trimming, public split)
+        st["release"] = rng.choice([[0], [0, 0], [1, 0], [1, 0, 0], [0, 1, 0], [0, 0, 0, 0], st["release"] + [0, 0]])
+    s = GV.spell(rng, st) if rng.random() < 0.5 else GV.normal(st)
+    cls = V._TrimmedRelease if rng.random() < trimmed else V.Version
+    return cls(s)
+
+
+def _g_version_method(trimmed):
+    def g(rng):
+        return [_version_obj(rng, trimmed)]
+    return g
+
+
+def _g_cmpkey(rng):
+    v = _version_obj(rng)._version
+    return [v.epoch, v.release, v.pre, v.post, v.dev, v.local]
+
+
 # lean name -> (module, attribute path, argument generator)
 FUNCS = {
     "_parse_letter_version": ("packaging.version", "_parse_letter_version", _g_parse_letter_version),
     "_is_not_suffix": ("packaging.specifiers", "_is_not_suffix", _g_is_not_suffix),
     "_version_join": ("packaging.specifiers", "_version_join", _g_version_join),
     "_pad_version": ("packaging.specifiers", "_pad_version", _g_pad_version),
+    "_cmpkey": ("packaging.version", "_cmpkey", _g_cmpkey),
+    "Version.__str__": ("packaging.version", "Version.__str__", _g_version_method(0.4)),
+    "Version.public": ("packaging.version", "Version.public", _g_version_method(0.2)),
+    "Version.base_version": ("packaging.version", "Version.base_version", _g_version_method(0.3)),
+    "Version.is_prerelease": ("packaging.version", "Version.is_prerelease", _g_version_method(0.1)),
+    "_TrimmedRelease.release": ("packaging.version", "_TrimmedRelease.release", _g_version_method(0.7)),
+    "Version.epoch": ("packaging.version", "Version.epoch", _g_version_method(0.1)),
+    "Version.release": ("packaging.version", "Version.release", _g_version_method(0.1)),
+    "Version.pre": ("packaging.version", "Version.pre", _g_version_method(0.1)),
+    "Version.post": ("packaging.version", "Version.post", _g_version_method(0.1)),
+    "Version.dev": ("packaging.version", "Version.dev", _g_version_method(0.1)),
+    "Version.local": ("packaging.version", "Version.local", _g_version_method(0.1)),
 }
 
 
